@@ -4,7 +4,7 @@
     generic in the external oracles (position line extents, name/duration validity): Section variables with
     no assumed behaviour.  Only property theorems here; proofs in Proofs/C19_relaxed.v, Proofs/C19_wrapper.v. *)
 From Coq Require Import List String Ascii Arith Bool NArith.
-From PintV Require Import Common.Bytes Model.Yaml Model.Parser Proofs.C19_relaxed Proofs.C19_wrapper.
+From PintV Require Import Common.Bytes Model.Yaml Model.Parser Proofs.C19_relaxed Proofs.C19_wrapper Proofs.C19_bound.
 Import ListNotations.
 Open Scope string_scope.
 Open Scope list_scope.
@@ -112,16 +112,24 @@ Theorem C19_alias_key_now_rejected :
 Proof. vm_compute. reflexivity. Qed.
 Print Assumptions C19_alias_key_now_rejected.
 
-(** (2) Relaxed mode always terminates: [doc_fuel] suffices for every forest (the fuel is not an assumption). *)
+(** (2) Relaxed mode always terminates: [doc_fuel] suffices for every forest (the fuel is not an assumption).  Since fix
+    2108dfa a document whose aliases unfold to more than a million nodes is refused before the descent (its error is
+    reported, later documents are not read), so the descent only ever runs on trees of at most 10^6 nodes
+    ([C19_descent_bounded] below). *)
 Theorem C19_relaxed_total :
   forall plines metric_ok lname_ok lvalue_ok lines ds yerr,
-    exists f, parse_relaxed plines metric_ok lname_ok lvalue_ok lines ds yerr = Some f /\ f_error f = yerr.
-Proof.
-  intros. unfold parse_relaxed.
-  destruct (parse_relaxed_loop_spec plines metric_ok lname_ok lvalue_ok lines yerr ds []) as (gs & E & _).
-  rewrite E. eexists. split; reflexivity.
-Qed.
+    exists f, parse_relaxed plines metric_ok lname_ok lvalue_ok lines ds yerr = Some f /\
+              (f_error f = yerr \/
+               exists d nl, In (d, nl) ds /\ too_big d = true /\ f_error f = Some (too_big_error d)).
+Proof. intros. unfold parse_relaxed. apply parse_relaxed_loop_total. Qed.
 Print Assumptions C19_relaxed_total.
+
+(** What the limit buys: a document the parser does not refuse unfolds (every alias replaced by its anchor) to a tree
+    of at most 1 000 000 nodes ([tsize], Proofs/C19_bound.v) — the tree parseNode / unpackNodes walk; the alias
+    doubling documents that kept relaxed mode busy for minutes (former known finding C02-alias-fanout) are refused. *)
+Theorem C19_descent_bounded : forall d, too_big d = false -> (tsize d <= 1000000)%N.
+Proof. exact descent_bounded. Qed.
+Print Assumptions C19_descent_bounded.
 
 (** (3) Wrapper invariance, for ALL forests: a node [S] placed under any number of mapping levels (any key),
     sequence levels (not directly under a `groups` key; items on the path and their siblings are not rules
@@ -144,6 +152,7 @@ Print Assumptions C19_wrapper_invariance.
 (** ... including extra documents before and after, at the level of Parser.Parse. *)
 Theorem C19_wrapper_invariance_file :
   forall plines metric_ok lname_ok lvalue_ok all_lines yerr before m nl after linesS offS S pS f1 gsS,
+    (forall x k, In (x, k) (before ++ (m, nl) :: after) -> too_big x = false) ->
     (forall x k, In (x, k) (before ++ after) -> no_rules_in plines metric_ok lname_ok lvalue_ok (firstn k all_lines) 0 x None) ->
     wrapper plines metric_ok lname_ok lvalue_ok linesS offS S pS (firstn nl all_lines) 0 m None ->
     parse_node plines metric_ok lname_ok lvalue_ok f1 linesS offS S pS None = Some gsS ->
